@@ -42,6 +42,14 @@ def traces_c07(drv, rnd, quick, eps):
         e = rnd.choice(epochs(rnd, rs[2], True))
         e1, _ = drv.event("C14", None, rnd.choice(pts), e=e, rset=rs)
         traces.append({"kind": "random14", "ev": [e1]})
+    # the same call with whole-metre coordinates handed over as Python ints / numpy int64 / numpy float64 (round 9)
+    for k in range(12 if quick else 120):
+        n = dated[(k * 5 + 1) % len(dated)]
+        ep0 = drv.cat[drv.idx[n] - 1]["ep"]
+        e = rnd.choice(epochs(rnd, ep0, True))
+        p = [int(rnd.uniform(0.3, 1.0) * [6.4e6, 1.0e7][k % 2]) * (1 if (k >> b) & 1 else -1) for b in range(3)]
+        e1, _ = drv.event("C14", n, p, e=e, form=["int", "npint", "npfloat"][k % 3])
+        traces.append({"kind": "forms14", "ev": [e1]})
     # the ATRF2014 <-> GDA2020 convenience functions
     es = epochs(rnd, D(2020, 1, 1).toordinal(), quick)
     for j, e in enumerate(es):
